@@ -108,33 +108,10 @@ func NewSchema(config SchemaConfig) (Schema, error) {
 
 	schema.typeMap = typeMap
 
-	// Keep track of all implementations by interface name.
-	if schema.implementations == nil {
-		schema.implementations = map[string][]*Object{}
-	}
-	for _, ttype := range schema.typeMap {
-		if ttype, ok := ttype.(*Object); ok {
-			for _, iface := range ttype.Interfaces() {
-				impls, ok := schema.implementations[iface.Name()]
-				if impls == nil || !ok {
-					impls = []*Object{}
-				}
-				impls = append(impls, ttype)
-				schema.implementations[iface.Name()] = impls
-			}
-		}
-	}
-
-	// Enforce correct interface implementations
-	for _, ttype := range schema.typeMap {
-		if ttype, ok := ttype.(*Object); ok {
-			for _, iface := range ttype.Interfaces() {
-				err := assertObjectImplementsInterface(&schema, ttype, iface)
-				if err != nil {
-					return schema, err
-				}
-			}
-		}
+	// Keep track of all implementations by interface name and enforce
+	// correct interface implementations (shared with AppendType).
+	if err = schema.AddImplementation(); err != nil {
+		return schema, err
 	}
 
 	// Add extensions from config
@@ -175,8 +152,8 @@ func (gq *Schema) AddImplementation() error {
 	}
 
 	// Enforce correct interface implementations
-	for _, ttype := range gq.typeMap {
-		if ttype, ok := ttype.(*Object); ok {
+	for _, name := range typeNames {
+		if ttype, ok := gq.typeMap[name].(*Object); ok {
 			for _, iface := range ttype.Interfaces() {
 				err := assertObjectImplementsInterface(gq, ttype, iface)
 				if err != nil {
@@ -185,6 +162,22 @@ func (gq *Schema) AddImplementation() error {
 			}
 		}
 	}
+
+	// Possible-type table of every abstract type, complete before the
+	// schema is used.
+	possibleTypeMap := map[string]map[string]bool{}
+	for _, name := range typeNames {
+		if abstractType, ok := gq.typeMap[name].(Abstract); ok {
+			members := map[string]bool{}
+			for _, possibleType := range gq.PossibleTypes(abstractType) {
+				if possibleType != nil {
+					members[possibleType.Name()] = true
+				}
+			}
+			possibleTypeMap[name] = members
+		}
+	}
+	gq.possibleTypeMap = possibleTypeMap
 
 	return nil
 }
@@ -249,23 +242,15 @@ func (gq *Schema) PossibleTypes(abstractType Abstract) []*Object {
 	return []*Object{}
 }
 func (gq *Schema) IsPossibleType(abstractType Abstract, possibleType *Object) bool {
-	possibleTypeMap := gq.possibleTypeMap
-	if possibleTypeMap == nil {
-		possibleTypeMap = map[string]map[string]bool{}
+	// The table is built once, by AddImplementation, and only read here:
+	// filling it lazily was a data race between concurrent requests.
+	if typeMap, ok := gq.possibleTypeMap[abstractType.Name()]; ok {
+		return typeMap[possibleType.Name()]
 	}
-
-	if typeMap, ok := possibleTypeMap[abstractType.Name()]; !ok {
-		typeMap = map[string]bool{}
-		for _, possibleType := range gq.PossibleTypes(abstractType) {
-			typeMap[possibleType.Name()] = true
+	for _, pt := range gq.PossibleTypes(abstractType) {
+		if pt.Name() == possibleType.Name() {
+			return true
 		}
-		possibleTypeMap[abstractType.Name()] = typeMap
-	}
-
-	gq.possibleTypeMap = possibleTypeMap
-	if typeMap, ok := possibleTypeMap[abstractType.Name()]; ok {
-		isPossible, _ := typeMap[possibleType.Name()]
-		return isPossible
 	}
 	return false
 }
